@@ -293,6 +293,15 @@ func (ss *Sorts) sortOf1(t types.Type) Sort {
 			return ss.sortOf(u)
 		case *types.Struct:
 			name := Sort("T_" + shortTypeName(tt))
+			if ta := tt.TypeArgs(); ta != nil && ta.Len() > 0 {
+				// instantiated generic type: the name reflects the argument sorts
+				// (type parameters are replaced by the current substitution)
+				nm := "T_" + sanitize(tt.Obj().Pkg().Name()+"."+tt.Obj().Name())
+				for i := 0; i < ta.Len(); i++ {
+					nm += "_" + sanitize(string(ss.sortOf(ta.At(i))))
+				}
+				name = Sort(nm + "_")
+			}
 			// a struct declared outside the repository is opaque; a repository
 			// type defined as such a struct (`type IPAddr netip.Prefix`) shares
 			// its sort, so that conversions between the two are the identity
